@@ -31,6 +31,10 @@ def make_model(case):
     kw = {}
     if "recode_gaps" in case and case["recode_gaps"] is not None:
         kw["recode_gaps"] = bool(case["recode_gaps"])
+    if case.get("gc"):
+        kw["gc"] = int(case["gc"])          # genetic code (codon models)
+    if case.get("solved"):
+        kw["rate_matrix_required"] = False  # closed-form P(t) variants of F81 / HKY85 / TN93
     if bins:
         kw.update(ordered_param="rate", distribution="gamma")
     b = case.get("build")
@@ -66,13 +70,21 @@ def make_model(case):
 def build_lf(case):
     from cogent3 import make_aligned_seqs, make_tree
 
+    # history: other models built earlier in this interpreter (same class, other genetic code / alphabet / options);
+    # the model under test must not depend on them
+    for h in case.get("history") or []:
+        hm = make_model(dict(h, bins=None))
+        hm.get_alphabet()
     tree = make_tree(case["tree"])
     aln = make_aligned_seqs({n: s for n, s in case["aln"]}, moltype=case.get("moltype", "dna"))
     # keep the requested row order
     aln = aln.take_seqs([n for n, _ in case["aln"]])
     bins = case.get("bins")
     sm = make_model(case)
-    lf = sm.make_likelihood_function(tree, bins=bins["n"]) if bins else sm.make_likelihood_function(tree)
+    if bins and bins.get("hmm"):
+        lf = sm.make_likelihood_function(tree, bins=bins["n"], sites_independent=False)
+    else:
+        lf = sm.make_likelihood_function(tree, bins=bins["n"]) if bins else sm.make_likelihood_function(tree)
     lf.set_alignment(aln)
     names = lf.get_param_names()
     has_mprobs = "mprobs" in names or "psmprobs" in names
@@ -99,12 +111,32 @@ def build_lf(case):
     if sc and rate_pars:
         p = rate_pars[0]
         v = round(rng.uniform(0.3, 3.0), 3)
-        lf.set_param_rule(p, edges=sc["edges"], value=v, is_constant=True)
-        params[p]["scoped"] = {"edges": sc["edges"], "value": v}
+        if "edges" in sc:
+            lf.set_param_rule(p, edges=sc["edges"], value=v, is_constant=True)
+        else:
+            # scope given by two tip names + stem / clade / outgroup_name (only the options present are passed)
+            kw = {k: sc[k] for k in ("stem", "clade", "outgroup_name") if sc.get(k) is not None}
+            lf.set_param_rule(p, tip_names=list(sc["tip_names"]), value=v, is_constant=True, **kw)
+        params[p]["scoped"] = dict(sc, value=v)
+    # lengths as make_likelihood_function took them from the tree ...
+    edges = [e.name for e in lf.tree.get_edge_vector(include_root=False)]
+    lf._verif_tree_lengths = {}
+    for e in edges:
+        try:
+            lf._verif_tree_lengths[e] = float(lf.get_param_value("length", edge=e))
+        except Exception:  # noqa: BLE001
+            lf._verif_tree_lengths[e] = None
+    if case.get("solved"):
+        # ... and, for the closed-form models, explicit unequal lengths (the tree's own) so that P(t) is exercised
+        for node in tree.get_edge_vector(include_root=False):
+            if node.length is not None:
+                lf.set_param_rule("length", edge=node.name, value=float(node.length), is_constant=True)
     if bins:
         if bins.get("bprobs"):
             lf.set_param_rule("bprobs", value=list(bins["bprobs"]), is_constant=True)
         lf.set_param_rule("rate_shape", value=bins["shape"], is_constant=True)
+        if bins.get("hmm"):
+            lf.set_param_rule("bin_switch", value=bins["hmm"]["switch"], is_constant=True)
     return lf, tree, aln, params
 
 
@@ -118,12 +150,28 @@ def observe_lf(lf, tree, aln, params, light=False):
     out = {}
     out["lnL"] = float(lf.get_log_likelihood())
     edges = [e.name for e in lf.tree.get_edge_vector(include_root=False)]
-    out["lengths"] = {}
+    out["lengths"] = dict(getattr(lf, "_verif_tree_lengths", {}))     # as taken from the tree
+    out["lengths_used"] = {}                                           # at evaluation time
     for e in edges:
         try:
-            out["lengths"][e] = float(lf.get_param_value("length", edge=e))
+            out["lengths_used"][e] = float(lf.get_param_value("length", edge=e))
         except Exception:  # noqa: BLE001
-            out["lengths"][e] = None
+            out["lengths_used"][e] = None
+    out["param_by_edge"] = {}
+    for p in params:
+        d = {}
+        for e in edges:
+            try:
+                d[e] = float(lf.get_param_value(p, edge=e))
+            except Exception:  # noqa: BLE001
+                d = None
+                break
+        out["param_by_edge"][p] = d
+    out["params"] = params
+    try:
+        out["mprob_alphabet"] = [str(m) for m in lf.model.mprob_model.get_input_alphabet()]
+    except Exception:  # noqa: BLE001
+        out["mprob_alphabet"] = None
     out["recode_gaps"] = bool(lf.model.recode_gaps)
     out["mprob_model"] = MPROB_KIND.get(type(lf.model.mprob_model).__name__, type(lf.model.mprob_model).__name__)
     pname = "wprobs" if "wprobs" in lf.defn_for else "mprobs"
@@ -134,7 +182,10 @@ def observe_lf(lf, tree, aln, params, light=False):
     out["pi"] = [float(x) for x in numpy.asarray(pi, float).ravel()]
     if light == "lnL":
         return out
-    out["site_liks"] = [float(x) for x in lf.get_full_length_likelihoods()]
+    try:
+        out["site_liks"] = [float(x) for x in lf.get_full_length_likelihoods()]
+    except Exception:  # noqa: BLE001  (not defined for the patch-HMM)
+        out["site_liks"] = None
     if light:
         return out
     model = lf.model
